@@ -124,7 +124,7 @@ def run_chunk(args):
         cfg = b'[snoopy]\ndatasource_message_max_length = %d\nlog_message_max_length = %d\noutput = file:%s/log\nmessage_format = %s\n' % (dsmax, logmax, w.encode(), f)
         lines.append('cfg ' + H.hx(cfg))
         lines.append('call execve %s %s [] -1 2' % (H.hx(PATH), H.vec([H.hx(a) for a in ARGV])))
-    r = H.run_script(h, w, '\n'.join(lines), env_extra={'VERIF_HEXMAX': '40000'}, timeout=900)
+    r = H.run_script(h, w, '\n'.join(lines), env_extra={'VERIF_HEXMAX': '40000' if dsmax < 100000 else '6000000'}, timeout=900)
     return r
 
 
@@ -289,6 +289,15 @@ def run(ck):
             for i in range(0, len(use), chunk):
                 jobs.append((v['h_exec'], idx, dsmax, logmax, use[i:i + chunk], os.path.join(ck.workdir, 'w%d' % idx)))
                 idx += 1
+    if full:
+        # the upper end of the configurable range: both limits at 1048575, data-source outputs of limit-1 / limit / limit+1 bytes
+        big = 1048575
+        bt = [b'a', b'%{env:V1}', b'%{env:V2}', b'%{env:V3}', b'%{filename}', b'%{nosuch}', b'%{failure}']
+        bf = [b''.join(sq) for n in (1, 2) for sq in itertools.product(bt, repeat=n)]
+        per_limit[(big, big)] = len(bf)
+        for i in range(0, len(bf), 8):
+            jobs.append((v['h_exec'], idx, big, big, bf[i:i + 8], os.path.join(ck.workdir, 'w%d' % idx)))
+            idx += 1
     results = pmap(run_chunk_resilient, jobs)
     evals = 0
     outcomes = set()
